@@ -166,7 +166,8 @@ Section Closed.
     | VPutDot z _ _ => exists v, r' = put z v r
     | VCatN => exists v, r' = if has (B "n") r then put (B "n") v r else (B "n", v) :: r
     | VCountSimilar _ => exists v, r' = put (B "count") v r
-    | VLabel _ | VRegularize => True
+    | VLabel _ | VRegularize | VFillEmpty _ | VFillDownAll _ => True
+    | VCatNG _ => exists v, r' = if has (B "n") r then put (B "n") v r else (B "n", v) :: r
     | _ => r' = r
     end.
 
@@ -212,6 +213,16 @@ Section Closed.
     - (* regularize *) apply (run_inv v_regularize (fun _ => True)); [exact I| |intros; constructor].
       intros s r _ Hr. cbn [vstep v_regularize]. cbv zeta. destruct (lookup_keys _ s); cbn [fst snd]; (split; [exact I|]);
         (constructor; [|constructor]); [apply (Hm r); [exact Hr|exact I]|exact Hr].
+    - (* fill-empty *) apply map_closed. intros r Hr. apply (Hm r); [exact Hr|exact I].
+    - (* fill-down --all *) apply (run_inv (v_fill_down_all only_if_absent) (fun _ => True)); [exact I| |intros; constructor].
+      intros s r _ Hr. cbn [vstep v_fill_down_all]. destruct (fda_fields only_if_absent s r) as [st1 r1]. cbn [fst snd].
+      split; [exact I|]. constructor; [apply (Hm r); [exact Hr|exact I]|constructor].
+    - (* cat -n -g *) apply (run_inv (v_cat_n_g k) (fun _ => True)); [exact I| |intros; constructor].
+      intros s r _ Hr. cbn [vstep v_cat_n_g].
+      match goal with |- context [let '(c, st1) := ?e in _] => destruct e as [c st1] end. cbn [fst snd].
+      split; [exact I|]. constructor; [|constructor]. apply (Hm r); [exact Hr|]. eexists. reflexivity.
+    - (* tee *) unfold v_tee. apply (run_inv vcat (fun _ => True)); [exact I| |intros; constructor].
+      intros s r _ Hr. cbn. split; [exact I|constructor; [exact Hr|constructor]].
   Qed.
 End Closed.
 
@@ -248,6 +259,9 @@ Proof.
   - (* count-similar *) destruct H as [v ->]. apply outs_put, wlist_hd.
   - (* label *) now rewrite !outs_wall.
   - (* regularize *) now rewrite !outs_wall.
+  - (* fill-empty *) now rewrite !outs_wall.
+  - (* fill-down --all *) now rewrite !outs_wall.
+  - (* cat -n -g *) destruct H as [v ->]. destruct (has (B "n") r); [apply outs_put, wlist_hd|apply outs_cons_in, wlist_hd].
 Qed.
 
 Lemma v05_bystander c : bystander (w05 c) (sem (V05 c)).
